@@ -440,6 +440,7 @@ fn run_scene(seed: u64, boundary: bool, allow_hang: bool, log_out: &mut Vec<Stri
 					if !hs.is_empty() {
 						let i = g.r.below(hs.len() as u64) as usize;
 						let tw = g.tween();
+						g.note(format!("   tween {tw:?}"));
 						match &mut hs[i] {
 							H::Sound(s) => match g.r.below(9) {
 								0 => s.pause(tw),
